@@ -50,3 +50,18 @@ pub fn replay_history<M: Monitor>(case: &serde_json::Value, profile: &Profile, m
     let mut st = Stats::default();
     run_plan(&plan, profile, &mut m, &mut st, 200)
 }
+
+/// A plan of a check's second phase (interpreted under another profile than the first phase's): tagged, so that a
+/// replay file tells which profile to use.
+#[derive(Clone, Debug, serde::Serialize, serde::Deserialize)]
+pub struct Phase2 {
+    pub phase2: Plan,
+}
+
+/// Replays a plan under `p1`, or - if the case is tagged as a second-phase plan - under `p2`.
+pub fn replay_two_phase<M: Monitor>(case: &serde_json::Value, p1: &Profile, p2: &Profile, m: M) -> Check {
+    match case.get("phase2") {
+        Some(inner) => replay_history(inner, p2, m),
+        None => replay_history(case, p1, m),
+    }
+}
